@@ -161,7 +161,12 @@ def search(chk, broken):
         row = min(rows, key=lambda r: abs((r.distance >> U.Foot) - X))
         miss = abs(row.target_drop >> U.Foot)
         slope = abs(math.tan((row.angle >> U.Radian) - look))
-        allowed = full.cZeroFindingAccuracy + full.max_calc_step_size_feet * slope
+        # "one integration step of travel": the integration advances by calc_step (half the configured maximum) through the AIR per step;
+        # over the ground that is calc_step x ground speed / air speed, bounded here with the strongest wind of the shot
+        wmax = max([abs(w.velocity >> U.FPS) for w in (shot.winds or [])] + [0.0])
+        vg = row.velocity >> U.FPS
+        travel = full.max_calc_step_size_feet / 2.0 * (vg / max(1.0, vg - wmax))
+        allowed = full.cZeroFindingAccuracy + min(full.max_calc_step_size_feet, travel) * slope
         if miss > allowed * 1.05 + 1e-9:
             cls = 'level' if abs(look) < 1e-3 else ('inclined' if abs(math.degrees(look)) < 30 else 'steep')
             chk.failures.append(Failure(f'misses-sight-line:{cls}',
